@@ -1,5 +1,5 @@
 INIT Init
 NEXT Next
 CONSTANT AllExtras = FALSE
-INVARIANTS RowOK ChildNeedsApplication UploadImpliesChild OffWritesNothing MarkedWritesNoToken CrashAloneSuffices OneTokenPerSequence
+INVARIANTS RowOK ChildNeedsApplication UploadImpliesChild OffWritesNothing MarkedWritesNoToken CrashAloneSuffices OneTokenPerSequence FailedStartLaunchesNobody
 CHECK_DEADLOCK FALSE
